@@ -706,6 +706,12 @@ impl Terminal {
             if self.cursor.row == self.bottom_margin {
                 self.buffer.wrap(self.cursor.row);
                 self.scroll_up_in_region(1);
+                // scrolling a region that ends above the last row clears the
+                // mark of the region's last row; the row we wrapped from is
+                // now one row up and must stay soft-wrapped
+                if self.cursor.row > self.top_margin {
+                    self.buffer.wrap(self.cursor.row - 1);
+                }
             } else if self.cursor.row < self.rows - 1 {
                 self.buffer.wrap(self.cursor.row);
                 self.do_move_cursor_to_row(self.cursor.row + 1);
